@@ -89,6 +89,9 @@ func genQ(r *vlib.R) aQ {
 	if r.Chance(1, 3) {
 		q.mask = r.Intn(64) // a 0x20-randomising client
 	}
+	if r.Chance(1, 8) {
+		q.qclass = vlib.Pick(r, []int{3, 4, 254, 255, 7, 3}) // CH, HS, NONE, ANY, unassigned
+	}
 	if r.Chance(3, 4) {
 		o := aOpt{present: true, do: r.Bool()}
 		if r.Chance(2, 3) {
@@ -597,11 +600,22 @@ func gen(r *vlib.R, n int, tier string, emit func(string)) {
 					return small(vlib.Pick(r, []int{dns.RcodeServerFailure, dns.RcodeServerFailure, 0, dns.RcodeNameError}))
 				}
 				emitN(fmt.Sprintf("edns failover %s %s %s %s %s %s", vlib.Pick(r, []string{"d", "w"}), protoPick(r), q, small(rc), f(), f()))
+			case x == 8 && r.Chance(1, 2):
+				// a private reverse name at the real AS112 handler, in every class
+				q := genQ(r)
+				q.id = arpaFrom + r.Intn(0x7000-arpaFrom)
+				q.qlen = len(wireName(qnameOf(q.id))) + 4
+				q.opcode = 0
+				q.qtype = vlib.Pick(r, []int{int(dns.TypePTR), int(dns.TypePTR), int(dns.TypeA), int(dns.TypeSOA), int(dns.TypeNS), int(dns.TypeDS), int(dns.TypeTXT), int(dns.TypeANY)})
+				if r.Bool() {
+					q.qclass = vlib.Pick(r, []int{3, 4, 254, 255, 7})
+				}
+				emitN(fmt.Sprintf("edns as112 %s %s %s", vlib.Pick(r, []string{"d", "w", "w"}), protoPick(r), q))
 			case x == 7 && r.Chance(1, 2):
 				// the cache's byte-route alias chase: a bare alias (CNAME only) and its
 				// target, admitted with independent AD bits, asked by any kind of client
 				q := genQ(r)
-				q.opcode, q.rd, q.mask, q.opt.ver = 0, true, 0, 0
+				q.opcode, q.rd, q.mask, q.opt.ver, q.qclass = 0, true, 0, 0, 0
 				q.qtype = int(dns.TypeTXT)
 				var keep []aOption
 				for _, o := range q.opt.opts {
@@ -630,7 +644,7 @@ func gen(r *vlib.R, n int, tier string, emit func(string)) {
 				// an entry that carries an extended error, hit over UDP with the
 				// reply stepping across the client's limit: the OPT's EDE counts
 				q := genQ(r)
-				q.opcode, q.rd, q.mask, q.cd = 0, true, 0, false
+				q.opcode, q.rd, q.mask, q.cd, q.qclass = 0, true, 0, false, 0
 				q.qtype = int(dns.TypeA)
 				q.opt = aOpt{present: true, udp: vlib.Pick(r, []int{512, 700, 1232, 4096}), do: r.Bool()}
 				if r.Bool() {
@@ -671,7 +685,7 @@ func gen(r *vlib.R, n int, tier string, emit func(string)) {
 				// the real cache handler serving a hit (byte route when the writer
 				// allows it, message route otherwise), behind the real edns
 				q := genQ(r)
-				q.opcode, q.rd, q.mask, q.opt.ver = 0, true, 0, 0
+				q.opcode, q.rd, q.mask, q.opt.ver, q.qclass = 0, true, 0, 0, 0
 				if _, known := dns.TypeToString[uint16(q.qtype)]; !known {
 					q.qtype = int(dns.TypeA) // the cache drops a type it cannot name without a reply (C11's business)
 				}
@@ -827,7 +841,10 @@ func gen(r *vlib.R, n int, tier string, emit func(string)) {
 	for l := 0; l < lives; l++ {
 		cfg := genCfg(r)
 		withCache := l%3 != 2
-		if l%3 == 1 {
+		if l%3 == 0 {
+			// the AS112 empty zones answer reverse names of private space themselves
+			emit(fmt.Sprintf("srv new %s %s as112", cfgArgs(cfg), vlib.B(withCache)))
+		} else if l%3 == 1 {
 			// the rate limiter (cookie check, BADCOOKIE) stands ahead of edns on this one
 			emit(fmt.Sprintf("srv new %s %s rl=100000", cfgArgs(cfg), vlib.B(withCache)))
 		} else {
@@ -847,6 +864,20 @@ func gen(r *vlib.R, n int, tier string, emit func(string)) {
 			if r.Chance(1, 12) {
 				// the same malformed stream at the entries that have no header gate of their own
 				emit(rawOp(vlib.Pick(r, []string{"http", "httpget", "msgdoh", "msgdoq", "rawudp", "rawudp", "rawtcp", "rawtcp", "inline"}), genMalformed(r, nil)))
+				continue
+			}
+			if l%3 == 0 && r.Chance(1, 10) {
+				// private reverse names in every class at the live AS112 handler
+				aq := genQ(r)
+				aq.id = arpaFrom + r.Intn(0x7000-arpaFrom)
+				aq.qlen = len(wireName(qnameOf(aq.id))) + 4
+				aq.opcode, aq.qtype, aq.opt.ver = 0, int(dns.TypePTR), 0
+				for _, cl := range []int{1, 3, 4, 254, 255, 7} {
+					hq := aq
+					hq.qclass = cl
+					emit(fmt.Sprintf("srv q %s %s %s", vlib.Pick(r, []string{"rawudp", "rawtcp", "inline", "sockudp", "socktcp", "msgdoh", "httpget", "sockdoq"}), hq, plainR))
+				}
+				k += 5
 				continue
 			}
 			if r.Chance(1, 14) {
